@@ -41,6 +41,7 @@ def catalogue(L, conformal, g3c_tools):
         ('call2', 1, lambda a, r: a(0, 2)), ('mag2', 1, lambda a, r: a.mag2()), ('abs', 1, lambda a, r: abs(a)), ('grades', 1, lambda a, r: a.grades()),
         ('str', 1, lambda a, r: str(a)), ('repr', 1, lambda a, r: repr(a)), ('eq', 2, lambda a, b, r: a == b), ('isScalar', 1, lambda a, r: a.isScalar()),
         ('inv', 1, lambda a, r: a.inv()), ('normal', 1, lambda a, r: a.normal()), ('pow2', 1, lambda a, r: a ** 2), ('pow0', 1, lambda a, r: a ** 0),
+        ('pow1', 1, lambda a, r: a ** 1), ('pow1.0', 1, lambda a, r: a ** 1.0), ('pow3', 1, lambda a, r: a ** 3),
         ('isBlade', 1, lambda a, r: a.isBlade()), ('isVersor', 1, lambda a, r: a.isVersor()), ('astype', 1, lambda a, r: a.astype(np.float64)),
         ('getitem', 1, lambda a, r: a[()]), ('blades_list', 1, lambda a, r: a.blades_list),
         ('project', 2, lambda a, b, r: a(1).project(b) if True else None), ('join', 2, lambda a, b, r: a(1).join(b(2))),
@@ -252,7 +253,7 @@ def run_history(res, lname, L, rng, length, conformal, g3c_tools, hist_id):
             except Exception as e:
                 res.violate(f'`{name}` raises on the second evaluation only', dict(site, step=stepno, op=name), repr(e), None, dict(site, op='nondeterministic:' + name))
             if len(recorded) < 40 and name not in ('str', 'repr', 'eq', 'isScalar', 'grades', 'inv', 'normal', 'isBlade', 'isVersor', 'blades_list', 'exp', 'join',
-                                                    'meet', 'project', 'pow2', 'pow0', 'hitzer', 'normalised', 'rotor_between_objects', 'rotor_explicit_antipodal'):
+                                                    'meet', 'project', 'pow2', 'pow0', 'pow3', 'hitzer', 'normalised', 'rotor_between_objects', 'rotor_explicit_antipodal'):
                 recorded.append((name, fn, [pool.objs[i][1] for i in args_idx], call_seed, result_bytes(out), [before[i] for i in args_idx], args_idx))
         model_ops.append("p:" + core.ints(args_idx))
         # the result joins the pool (scalars and other array-less results as a dummy cell so that addresses stay aligned with the model)
@@ -392,11 +393,48 @@ def check_rng(res, rng, tier):
                     res.violate('a tools generator given the same rng state returns different output', dict(site, seed=s), None, None, dict(site, op='rng-reproducible'))
 
 
+def check_twin_layouts(res, rng):
+    """an operation's result is a function of its operands (and their own layout) only: two layouts with the same signature but
+    different blade orders, used alternately in one process, each project onto grades by their own grade arrays"""
+    import numpy as np
+    from harness import real
+    from clifford import MultiVector
+    for sig, order in (([1, 1, -1], [0, 1, 2, 3, 4, 5, 6, 7]), ([1, 1, 1, 1], None)):
+        n = len(sig)
+        N = 2 ** n
+        if order is None:
+            order = [int(x) for x in rng.permutation(N)]
+        A = real.make_layout(sig)
+        B = real.make_layout(sig, order=order)
+        site = dict(layout=f'twin Cl{sig}', order=order)
+        va = np.arange(1, N + 1, dtype=np.int64)
+        for rnd in range(3):
+            for L, nm in ((A, 'default'), (B, 'custom'), (A, 'default')):
+                M = MultiVector(L, va.copy())
+                grades = np.asarray(L._basis_blade_order.grades)
+                for g in range(n + 1):
+                    res.case(('twin', tuple(sig), tuple(order), nm, g, rnd), nontrivial=True)
+                    res.count('twin_call')
+                    got = M(g).value
+                    exp = np.where(grades == g, va, 0)
+                    if not np.array_equal(got, exp):
+                        res.violate('grade projection depends on which equal-signature layout was used before (hidden shared state)',
+                                    dict(site, which=nm, grade=g, round=rnd), got.tolist(), exp.tolist(), dict(site, op='impure:call-twin'))
+                # evict bounded caches between rounds: projections in many other signatures
+            for k in range(40):
+                Lk = real.make_layout([1] * 2 + [-1] * (k % 3) + [0] * (k % 2) + [1] * (k // 6 % 3))
+                for g in range(Lk.dims + 1):
+                    MultiVector(Lk, np.ones(Lk.gaDims))(g)
+
+
 def run_job(job, tier, seed):
     from harness import real
     import clifford as cf
     res = core.Result(job)
     rng = gen.rng_for(seed, 'C17', job)
+    if job == 'history':
+        with common.guard(res, 'twin layouts', {}):
+            check_twin_layouts(res, rng)
     if job in ('history', 'history_jit'):
         length = 50 if tier == 'quick' else 200
         nh = (3 if tier == 'quick' else 8) if job == 'history' else 1
